@@ -431,14 +431,19 @@ pub fn get_best_move_entry(
         flag: NodeType::Exact,
     };
 
-    table
-        .entry(game.hash())
-        .and_modify(|entry| {
-            if entry.depth <= depth {
-                *entry = new_entry;
-            }
-        })
-        .or_insert(new_entry);
+    // A root without legal moves has nothing worth caching: its placeholder score
+    // (lower than every real mate score) would make later searches that reach this
+    // position through the table discard all their moves
+    if best_move.is_some() {
+        table
+            .entry(game.hash())
+            .and_modify(|entry| {
+                if entry.depth <= depth {
+                    *entry = new_entry;
+                }
+            })
+            .or_insert(new_entry);
+    }
 
     Some((best_move, best_score, false))
 }
